@@ -32,7 +32,7 @@ CLAIM = dict(
 SIG_F5 = "C17:hyphens-negative-offset"
 SIG_DIGIT = "C17:digit-only-line-ignored"
 SIG_STATES = "C17:state-number-overflow"
-TICK = "HOOK budget 100000000"
+TICK = "HOOK budget 200000"      # hyph_walk_bound: at most 2*(n+2) <= 202 iterations per run of letters
 
 
 # ---------------------------------------------------------------- generators
@@ -264,7 +264,7 @@ def run(tier):
                 g["cases"].append(common.Case("%s-w%d" % (g["id"], j), setup,
                                               ["HYP %s.utb 0 %s" % (g["id"], common.wide(w))], {"g": g}))
             cases += g["cases"]
-    common.run_cases(exe, cases, batch=12, timeout=300)
+    common.run_cases(exe, cases, batch=12, timeout=120)
     # the model on the same inputs (one line per dictionary: compiled once)
     mlines = []
     for g in gens:
@@ -283,7 +283,7 @@ def run(tier):
         sp = H.Spec(pats or [])
         replay_base = {"dictionary_hex": common.hexbytes(g["bytes"]), "table": g["tbl"], "kind": g["kind"]}
         c0 = g["cases"][0]
-        if c0.fault or len(c0.out) < 2:
+        if len(c0.out) < 2:
             v.violation("C17:fault-compiling-generated-dictionary:%s" % (c0.fault or {}).get("kind"),
                         "harness died while compiling/dumping a generated dictionary: %s" % c0.fault, replay_base)
             continue
@@ -319,6 +319,8 @@ def run(tier):
             else:
                 line = c0.out[2 + j] if len(c0.out) > 2 + j else None
                 fault = c0.fault if line is None else None
+                if line is None and (fault is None or 2 + j != len(c0.out)):
+                    continue          # not reached: an earlier word of this case killed the process
             dist["gwords"] += 1
             if len(w) >= 100:
                 dist["gwords_len_ge_100"] += 1
@@ -331,12 +333,18 @@ def run(tier):
                 if mline.startswith("H FAULT negOffset") and "hyphenateWord" in fr.get("frame", ""):
                     v.violation(SIG_F5, "pattern with a digit before a leading '.': hyphenateWord accesses hyphens[-1] "
                                         "(%s, %s); the model predicts the negative offset" % (fr.get("kind"), fr.get("detail")), rep)
+                elif fr.get("kind") in ("tick-budget", "timeout"):
+                    v.violation("C17:fallback-loop-does-not-terminate",
+                                "hyphenateWord exceeded %s (hyph_walk_bound: at most 2(n+2) iterations)" % fr.get("kind"), rep)
                 else:
                     v.violation("C17:fault:%s:%s" % (fr.get("kind"), fr.get("frame")),
                                 "lou_hyphenate died: %s (model: %s)" % (fr, mline[:80]), rep)
                 continue
             R = parse_H(line)
             M = parse_H(mline)
+            if R is None:
+                v.violation("C17:no-result", "no result line for a word: %r" % line[:200], rep)
+                continue
             v.cov["evaluations"] += 1
             # -- correspondence (result and tick count)
             if M and M[0] == "FAULT":
@@ -437,7 +445,7 @@ def run(tier):
     for s in ship:
         name = "s_" + re.sub(r"\W", "_", s["dic"])
         s["name"] = name
-        setup = ["TBL %s.utb %s" % (name, common.hexbytes(s["tbl"])), "GET %s.utb" % name]
+        setup = ["TBL %s.utb %s" % (name, common.hexbytes(s["tbl"])), "GET %s.utb" % name, TICK]
         s["case0"] = common.Case(name, setup, ["HYPDUMP %s.utb" % name], {"s": s})
         scases.append(s["case0"])
         s["wcases"] = []
@@ -446,7 +454,7 @@ def run(tier):
                             ["HYP %s.utb 0 %s" % (name, common.wide(w)) for w in s["words"][b:b + 50]], {"s": s, "b": b})
             s["wcases"].append(c)
             scases.append(c)
-    common.run_cases(exe, scases, batch=1, timeout=900)
+    common.run_cases(exe, scases, batch=1, timeout=300)
     # Lean model dumps for the shipped dictionaries it can compile in the time of the tier
     lim = 12000 if quick else 70000
     mjobs = [s for s in ship if s["pats"] is not None and len(H.Spec(s["pats"]).prefixes) <= lim]
@@ -495,6 +503,9 @@ def run(tier):
                                     dict(rep, fault=fr))
                     continue
                 R = parse_H(c.out[j])
+                if R is None or R[0] == "FAULT":
+                    v.violation("C17:no-result:%s" % s["dic"], "%s: no result line for a word: %r" % (s["dic"], c.out[j][:200]), rep)
+                    continue
                 dist["shipped_words"] += 1
                 v.cov["evaluations"] += 1
                 fr_ = format_ok(R[0], R[1], len(w), have_dict)
@@ -592,7 +603,7 @@ def braille_check(v, rng, exe, gens, dist, corr_bad, quick, tw):
             script.append("FWD %s 0 %d - 0 %s - -" % (corpus.tpath(t), 4 * len(w) + 20, common.wide(w)))
         c = common.Case("bf-" + t, ["GET " + corpus.tpath(t)], script, {"t": t, "ops": ops})
         cases.append(c)
-    common.run_cases(exe, cases, batch=1, timeout=600)
+    common.run_cases(exe, cases, batch=1, timeout=300)
     cases2 = []
     for c in cases:
         t = c.meta["t"]
@@ -608,7 +619,7 @@ def braille_check(v, rng, exe, gens, dist, corr_bad, quick, tw):
             ins.append(brl)
             script.append("HYP %s 1 %s" % (corpus.tpath(t), common.wide(brl)))
             script.append("BWD %s 0 100 - 8 %s - -" % (corpus.tpath(t), common.wide(brl)))
-        c2 = common.Case("bh-" + t, ["GET " + corpus.tpath(t)], script, {"t": t, "ins": ins})
+        c2 = common.Case("bh-" + t, ["GET " + corpus.tpath(t), "HOOK budget 5000000"], script, {"t": t, "ins": ins})
         cases2.append(c2)
     # generated tables: braille = the letters themselves (display table of the same definitions)
     gl = [g for g in gens if g["pats"] and not g["risky"] and g["kind"] == "normal"][: (10 if quick else 60)]
@@ -621,7 +632,7 @@ def braille_check(v, rng, exe, gens, dist, corr_bad, quick, tw):
             script.append("HYP %s.utb 1 %s" % (g["id"], common.wide(w)))
             script.append("BWD %s.utb 0 100 - 8 %s - -" % (g["id"], common.wide(w)))
         cases2.append(common.Case("bg-" + g["id"], setup, script, {"g": g, "ins": ins}))
-    common.run_cases(exe, cases2, batch=1, timeout=600)
+    common.run_cases(exe, cases2, batch=1, timeout=300)
     mlines, mexp = [], []
     budget = {}
     for c in cases2:
@@ -637,6 +648,9 @@ def braille_check(v, rng, exe, gens, dist, corr_bad, quick, tw):
                 break
             hl, bl = c.out[off + 2 * j], c.out[off + 2 * j + 1]
             R = parse_H(hl)
+            if R is None:
+                v.violation("C17:no-result:braille", "no result line: %r" % hl[:200], {"script": c.setup + [c.ops[off + 2 * j]]})
+                continue
             dist["braille_calls"] += 1
             v.cov["evaluations"] += 1
             rep = {"script": c.setup + [c.ops[off + 2 * j]], "result": hl}
